@@ -178,6 +178,9 @@ func (r *rpRun) apply(i int, op rpOp) {
 		r.now = r.now.Add(time.Duration(op.K) * rpUnit)
 	case "gc":
 		r.rep.(*sse.ValidReplayer).GC()
+	case "setgci":
+		// the exported field, assigned between calls by the replayer's owner
+		r.rep.(*sse.ValidReplayer).GCInterval = time.Duration(op.K) * rpUnit
 	case "put":
 		m := &sse.Message{}
 		m.AppendData("payload " + strconv.Itoa(i))
